@@ -132,8 +132,8 @@ JudgeRead(lx, it, tg, anyInvalid, connsize, alone) ==
         (IF tg.truthy = 1 THEN "C03:invalid-truthy"
          ELSE IF ~IsS(tg.error) \/ Len(tg.error.s) = 0 THEN "C03:empty-error" ELSE "")
     ELSE IF allFailed THEN
-        (IF tg.truthy = 1 THEN "C13:success-on-error"
-         ELSE IF ~IsS(tg.error) \/ Len(tg.error.s) = 0 THEN "C13:empty-error"
+        (IF tg.truthy = 1 THEN "C13:success-on-error+C03:refused-truthy+C01:refused-truthy"     \* the controller refused (part of) this request
+         ELSE IF ~IsS(tg.error) \/ Len(tg.error.s) = 0 THEN "C13:empty-error+C03:empty-error"
          ELSE IF ~NamesStatus(lx, tg.error, fsv[Len(fsv)].status) THEN "C13:status-not-named" ELSE "")
     ELSE IF someFailed THEN ""
     ELSE IF tg.truthy = 0 THEN Plus(Plus("C01:falsy-for-existing", IF anyInvalid THEN "C03:isolation" ELSE ""), Plus(IF big THEN "C04:readable" ELSE "", "C13:failure-on-success"))
@@ -174,8 +174,8 @@ JudgeWrite(lx, it, tg, anyInvalid, connsize, alone) ==
         (IF tg.truthy = 1 THEN "C03:invalid-truthy"
          ELSE IF ~IsS(tg.error) \/ Len(tg.error.s) = 0 THEN "C03:empty-error" ELSE "")
     ELSE IF failedHere # {} /\ (alone \/ okHere = {}) THEN
-        (IF tg.truthy = 1 THEN "C13:success-on-error"
-         ELSE IF ~IsS(tg.error) \/ Len(tg.error.s) = 0 THEN "C13:empty-error"
+        (IF tg.truthy = 1 THEN "C13:success-on-error+C03:refused-truthy+C02:reported-but-refused"
+         ELSE IF ~IsS(tg.error) \/ Len(tg.error.s) = 0 THEN "C13:empty-error+C03:empty-error"
          ELSE IF ~NamesStatus(lx, tg.error, lx.svclog[Max(failedHere)].status) THEN "C13:status-not-named" ELSE "")
     ELSE IF failedHere # {} THEN ""
     ELSE IF tg.truthy = 0 THEN Plus(Plus("C02:valid-write-failed", IF anyInvalid THEN "C03:isolation" ELSE ""), IF Len(w.bytes) + 64 >= connsize THEN "C04:writable" ELSE "")
@@ -211,7 +211,7 @@ WriteRet(lx, call, ev, connsize) ==
              anyUnspec == \E i \in 1..n : ExpectWrite(pre, items[i]).cls = "unspec"
              expected == ApplyTruthy(pre, items, tgs, 1)
          IN IF c1 # "" THEN RetR(c1, lx)
-            ELSE IF anyUnspec THEN RetR("", lx)
+            ELSE IF anyUnspec \/ Len(lx.svclog) > 0 THEN RetR("", lx)        \* what a refused (part of a) write leaves in memory is not specified
             ELSE IF \E x \in 1..Len(lx.xfer) : lx.xfer[x].svc = 83 /\ lx.xfer[x].next >= 0 THEN RetR("C04:write-tiling", lx)
             ELSE IF expected.mem # lx.mem THEN
                  (IF \E k \in 1..Len(lx.mem) : expected.mem[k].b # lx.mem[k].b
